@@ -21,7 +21,7 @@ use serde_json::{json, Value};
 use std::collections::HashSet;
 
 /// the defining sum: sum over models of the product of literal weights, modulo P
-fn defining_sum(f: TT, n: usize, w: &[(u128, u128)], p: u128) -> u128 {
+pub fn defining_sum(f: TT, n: usize, w: &[(u128, u128)], p: u128) -> u128 {
     let mut total = 0u128;
     for a in 0..(1usize << n) {
         if tt::eval(f, a) {
@@ -35,7 +35,7 @@ fn defining_sum(f: TT, n: usize, w: &[(u128, u128)], p: u128) -> u128 {
     total
 }
 
-fn weights_of<const P: u128>(map: &WmcParams<FiniteField<P>>, n: usize) -> Vec<(u128, u128)> {
+pub fn weights_of<const P: u128>(map: &WmcParams<FiniteField<P>>, n: usize) -> Vec<(u128, u128)> {
     (0..n).map(|v| {
         let (l, h) = map.var_weight(VarLabel::new(v as u64));
         (l.value(), h.value())
@@ -319,6 +319,16 @@ pub fn run(ctx: &Ctx) -> Report {
     c.rule = String::new();
     c.floors.clear();
     rep.merge(c);
+    // (a') every result of the SDD operation histories (compression on and off, so also
+    // untrimmed / uncompressed diagrams of a function): hash of the result and of its negation
+    let mut h = crate::props::sddsweep::run_all_h(ctx, false, true);
+    crate::props::sddsweep::filter_for(&mut h, "C11");
+    let hc = h.extra.get("semantic_hash_checks").and_then(|v| v.as_u64()).unwrap_or(0);
+    rep.add_extra("part_a_hash_checks_on_sdd_operation_results", hc);
+    h.rule = String::new();
+    h.floors.clear();
+    rep.merge(h);
+    rep.floor("hash checks on SDD operation results", hc, 1000);
     // (c) CNF compilation
     let types = clause_types(3);
     let mut sets = match ctx.tier {
